@@ -1,6 +1,6 @@
 # coding: utf-8
 """C02 — a plasmid has no origin: typing and assembly are rotation-invariant."""
-EXTRA_OBLIGATION_FILES = ("Props/C04_src.v", "Props/C03_src.v",)
+EXTRA_OBLIGATION_FILES = ("Props/C02_src.v", "Props/C04_src.v", "Props/C03_src.v",)
 
 from harness import common, gens, pattern
 from harness.props import C03
